@@ -1,5 +1,5 @@
 """Texts of the claims made in MANIFEST.json, per property."""
-HOOK_COMMITS = ['78ce041']
+HOOK_COMMITS = ['78ce041', '65be38d']
 
 NOT_APPLICABLE = {}
 
@@ -14,5 +14,32 @@ CLAIMS = {
                 '(encoders and decoders both directions, edge varints, mutations).',
         'note': TB + 'wabin leb128 and Go slice semantics are modelled (re-implemented in Lean) and validated by the correspondence run.',
         'technique': 'Lean 4 proof (induction over lists / strong induction on the varint value) + differential correspondence',
+    },
+    'C04': {
+        'text': 'Refinement theorems in Lean 4: for every put/overwrite history the store model refines "latest accepted put per id" '
+                '(get returns exactly that value or nothing after pruning; refused puts are no-ops; xor keys are injective and hit the reserved '
+                'key only for the node id). Tied to the real pebble store by exact step equality on random histories and by re-comparing every '
+                'slice Get ever returned (buffer lifetime).',
+        'note': TB + 'pebble is modelled as a sorted map with atomic batches; buffer recycling inside pebble is outside the model and is '
+                'covered only by the retained-slice comparison; reopen is NewStorage on the same open database.',
+        'technique': 'Lean 4 refinement proof (abstraction to a map, induction over histories) + differential correspondence',
+    },
+    'C05': {
+        'text': 'Invariant theorems in Lean 4 over all sequential put histories (any sizes, capacities, keys): a prune frees >= cap/20 or '
+                'everything, drops a farthest-first suffix, held <= tracked = persisted, held <= cap when items <= 5%. The executable model is '
+                'proved equal to the theorem model and matches the real store field-for-field after every put. The concurrent clause is '
+                'refuted by a decided schedule that is replayed on the real store (known finding).',
+        'note': TB + 'concurrency is modelled at the granularity of the atomic steps the code has (Add, commit); finer interleavings and '
+                'data races are not exhibited. float64(cap)*0.05 = cap/20 is assumed and compared on every run.',
+        'technique': 'Lean 4 invariant proof by induction over operation lists + differential correspondence + forced-schedule replay',
+    },
+    'C06': {
+        'text': 'Theorems in Lean 4 for the ideal big-endian XOR metric over all put histories (retained <= radius, refusal iff not below '
+                'radius, radius antitone, in-range iff xor < radius, bytewise key order = big-endian order) and decided counter-examples for '
+                'the two deviations found. The real store is compared exactly against the model with the little-endian switch on (known '
+                'finding, pinned by a baseline test); inRange was repaired and is compared with the ideal rule.',
+        'note': TB + 'uint256 modelled by Nat; the known little-endian finding means the ideal theorems do not describe today\'s store, '
+                'which is exactly what the KNOWN-FINDING line reports.',
+        'technique': 'Lean 4 invariant proof + quirk-switch model + differential correspondence',
     },
 }
